@@ -17,15 +17,18 @@
          stale = `Variant.staleRes` (1 = the renewed id is dropped, as probed on the real code); the other
          components of the variant are the ones read from the source
 
-    selentry <floor|-> <rid> <res> <res0> <rec hex> <next> <rplan> <letters> <tail>
+    selentry <floor|-> <empty 0|1> <rid> <res> <res0> <rec hex> <next> <rplan> <letters> <tail>
                                                       Sel.get_sel_entry(rid, res) against `SelXfer.scriptSend`
-    selgac <floor|-> <b|f><n> <rid> <res0> <rec hex> <next> <rplan> <letters> <tail>
+    selgac <floor|-> <empty 0|1> <b|f><n> <rid> <res0> <rec hex> <next> <rplan> <letters> <tail>
                                                       Sel.get_and_clear_sel_entry(rid[, retry]); b<n> = the tree has a
                                                       retry budget, n rounds; f<n> = `while True`, n rounds of fuel
-         floor = `Variant.floor` as probed (- = none); rplan = outcomes of the Reserve SEL requests (then granted);
-         letters / tail = outcomes of Get / Delete SEL Entry; the device holds the one record <rec hex>
+         floor = `Variant.floor` as probed (- = none); empty = `Variant.emptyStop` as probed (1 = RetryError on a
+         completed answer without a record byte); rplan = outcomes of the Reserve SEL requests (then granted);
+         letters / tail = outcomes of Get / Delete SEL Entry, here also S<k> = completed, the answer to a Get carries
+         at most k record bytes (S0 = `00 next-lo next-hi`); the device holds the one record <rec hex>
          outcome ::= ok=<hex>:<next> | ok=<hex> | <error tag>
-         E ::= r<granted> | f<code> (Reserve refused) | g<res>:<rid>:<off>:<len>:<cc> | d<res>:<rid>:<cc> | ?
+         E ::= r<granted> | f<code> (Reserve refused) | g<res>:<rid>:<off>:<len>:<cc>:<record bytes served>
+             | d<res>:<rid>:<cc> | ?
 
   letters ::= - | L(,L)*      L ::= C | P | R | T | U | B | O<code>
   answer  ::= <outcome tag> <trace>      trace ::= - | E(,E)*
@@ -143,7 +146,7 @@ def showSelXchg (x : PyIpmi.FruXfer.Xchg) : String :=
   let cc := x.rsp.getD 0 0
   let p := x.req.payload
   if x.req.cmd == 0x42 then (if cc == 0 then s!"r{u16at x.rsp 1}" else s!"f{cc}")
-  else if x.req.cmd == 0x43 then s!"g{u16at p 0}:{u16at p 2}:{p.getD 4 0}:{p.getD 5 0}:{cc}"
+  else if x.req.cmd == 0x43 then s!"g{u16at p 0}:{u16at p 2}:{p.getD 4 0}:{p.getD 5 0}:{cc}:{x.rsp.length - 3}"
   else if x.req.cmd == 0x46 then s!"d{u16at p 0}:{u16at p 2}:{cc}"
   else "?"
 
@@ -157,23 +160,34 @@ def answerSel {α : Type} (r : PyIpmi.FruXfer.Res PyIpmi.SelXfer.ScriptSel α) (
 def parseFloor (s : String) : Option (Option Int) :=
   if s == "-" then some none else s.toInt?.map some
 
+/-- a letter of the SEL alphabet: L, or S<k> = completed with at most k record bytes -/
+def parseSelLetter (s : String) : Option (Letter × Option Nat) :=
+  if s.startsWith "S" then (s.drop 1).toNat?.map fun k => (.completed, some k)
+  else (parseLetter s).map fun l => (l, none)
+
+def parseSelLetters (s : String) : Option (List (Letter × Option Nat)) :=
+  if s == "-" then some [] else (s.splitOn ",").mapM parseSelLetter
+
 open PyIpmi.SelXfer in
 def handleSel13 (toks : List String) : Option String :=
   match toks with
-  | ["selentry", fl, rid, res, r0, rec, nx, rp, ls, t] => do
+  | ["selentry", fl, em, rid, res, r0, rec, nx, rp, ls, t] => do
     let fl ← parseFloor fl
+    let em ← em.toNat?
     let rid ← rid.toNat?
     let res ← res.toNat?
     let r0 ← r0.toNat?
     let rec ← ofHex rec
     let nx ← nx.toNat?
     let rp ← parseLetters rp
-    let ls ← parseLetters ls
-    let t ← parseLetter t
-    pure (answerSel (runEntry PyIpmi.Gen.Loops10.selCfg ⟨fl, none⟩ ⟨⟨ls, t⟩, rp, r0, rec, nx⟩ rid res)
+    let ls ← parseSelLetters ls
+    let t ← parseSelLetter t
+    pure (answerSel (runEntry PyIpmi.Gen.Loops10.selCfg ⟨fl, none, em != 0⟩
+        ⟨⟨ls.map (·.1), t.1⟩, ⟨ls.map (·.2), t.2⟩, rp, r0, rec, nx⟩ rid res)
       (fun (p : List Nat × Nat) => s!"{toHex p.1}:{p.2}"))
-  | ["selgac", fl, bn, rid, r0, rec, nx, rp, ls, t] => do
+  | ["selgac", fl, em, bn, rid, r0, rec, nx, rp, ls, t] => do
     let fl ← parseFloor fl
+    let em ← em.toNat?
     let n ← (bn.drop 1).toString.toNat?
     let budget : Option Nat := if bn.startsWith "b" then some n else none
     let rid ← rid.toNat?
@@ -181,9 +195,10 @@ def handleSel13 (toks : List String) : Option String :=
     let rec ← ofHex rec
     let nx ← nx.toNat?
     let rp ← parseLetters rp
-    let ls ← parseLetters ls
-    let t ← parseLetter t
-    pure (answerSel (runGac PyIpmi.Gen.Loops10.selCfg ⟨fl, budget⟩ n ⟨⟨ls, t⟩, rp, r0, rec, nx⟩ rid) toHex)
+    let ls ← parseSelLetters ls
+    let t ← parseSelLetter t
+    pure (answerSel (runGac PyIpmi.Gen.Loops10.selCfg ⟨fl, budget, em != 0⟩ n
+        ⟨⟨ls.map (·.1), t.1⟩, ⟨ls.map (·.2), t.2⟩, rp, r0, rec, nx⟩ rid) toHex)
   | _ => none
 
 def handleC13 (line : String) : String :=
